@@ -2,12 +2,13 @@
 import parts_pipeline as pp
 
 CLASS_PROPS = {'values': ['C15'], 'attempts': ['C15'], 'overlap': ['C15'], 'torn': ['C15', 'C03'], 'closed': ['C15', 'C06'],
-               'hang': ['C15', 'C07'], 'ctx-nil': ['C09'], 'sub': ['C12']}
+               'hang': ['C15', 'C07'], 'ctx-nil': ['C09'], 'sub': ['C12'],
+               'reuse-values': ['C12', 'C15'], 'reuse-attempts': ['C12', 'C15'], 'reuse-overlap': ['C12', 'C15'], 'reuse-torn': ['C12'], 'reuse-closed': ['C12'], 'reuse-sub': ['C12']}
 
 
 def run(rep, pid, thorough):
     cfg = ('resub', 'SPECIFICATION Spec\nCONSTANTS MaxAttempts = %d\n MaxVals = %d\nINVARIANTS AtMostOneLiveAttempt AttemptsInOrder Grammar Bounded EmitCase\n' % ((4, 2) if thorough else (3, 1)))
-    pp.run(rep, pid, [cfg], modes='sync,async', module='ResubGen', replay_cmd='replay-resub', class_props=CLASS_PROPS, prefix='resub.')
+    pp.run(rep, pid, [cfg], modes='sync,async,apply-decoy-first,apply-real-first', module='ResubGen', replay_cmd='replay-resub', class_props=CLASS_PROPS, prefix='resub.')
 
 
 def replay_case(pid, path):
